@@ -363,6 +363,13 @@ class Run:
                 return
             for o in todo:
                 o.meta.update(flags)
+            if flags.get("abstract_mul"):
+                # abstract once in the parent (memoised over the shared sub-terms); the forked workers inherit the memo
+                from .core import abstract_mul as _am
+                for o in todo:
+                    for h in o.hyps:
+                        _am(h)
+                    _am(o.goal)
             backends.discharge(todo, budget)
             for o in todo:
                 for k in flags:
